@@ -18,11 +18,11 @@ ID = "C04"
 RULE = (
     "case = valid growth-grammar network (>=3 growth steps, VSL probability 1/2, drawn element names that do not "
     "sort like the ids) x symbol type x more_out x positivity-init options x optional symbolic parameters x one "
-    "state with pairwise distinct entries; all three compactness levels plus one out-of-range level (-2,-1,3,5: documented as <=0 / >1) are compiled for every case. "
+    "state with pairwise distinct entries x variables optionally supplied as caller-held symbols in a drawn subset and key order; all three compactness levels plus one out-of-range level (-2,-1,3,5: documented as <=0 / >1) are compiled for every case. "
     "Non-trivial = >=2 links and (>=2 queued origins or >=2 VSL links). Distinct = SHA-1 of the case."
 )
-BUDGET = {"quick": {"examples": 120, "shards": 4}, "thorough": {"examples": 2000, "shards": 16}}
-EXPECTED_LABELS = ("engine:SX", "engine:MX", "more_out", "sympars", "opts", "feedback", "vsl:empty", "origin:ideal",
+BUDGET = {"quick": {"examples": 120, "shards": 4}, "thorough": {"fuzz_runs": 3000, "examples": 2000, "shards": 16}}
+EXPECTED_LABELS = ("caller-symbols", "engine:SX", "engine:MX", "more_out", "sympars", "opts", "feedback", "vsl:empty", "origin:ideal",
                    "dest:cong", "origin:main", "origin:simp_lim")
 ASSUMPTIONS = ["element enumeration order = list(net.elements) (taken as given by the property)",
                "layout model lib/layout.py states the documented concatenation"]
@@ -35,7 +35,36 @@ def cases(draw):
     opts = draw(st.one_of(st.just([]), st.lists(st.sampled_from(S.OPT_NAMES[:3]), unique=True, max_size=3).map(sorted)))
     sympars = draw(st.one_of(st.none(), c03.sympar_choice(sp)))
     return {"spec": sp, "state": state, "sym": draw(st.sampled_from(["SX", "MX"])), "more_out": draw(st.booleans()),
-            "opts": opts, "sympars": sympars, "extra_compact": draw(st.sampled_from([-1, -2, 3, 5]))}
+            "opts": opts, "sympars": sympars, "extra_compact": draw(st.sampled_from([-1, -2, 3, 5])), "init": draw(held_symbols(sp))}
+
+
+@st.composite
+def held_symbols(draw, sp):
+    """Which variables are supplied by the caller as its own symbols, and in which key order
+    (None = all engine-created): [[element id, [variable names in the order the caller lists them]], ...]."""
+    if draw(st.integers(0, 2)) == 0:
+        return None
+    out = []
+    for i, var_n in _by_element(sp).items():
+        if draw(st.booleans()):
+            vars_ = [v for v in var_n if draw(st.integers(0, 3)) > 0]
+            if vars_:
+                out.append([i, list(draw(st.permutations(vars_)))])
+    return list(draw(st.permutations(out))) or None
+
+
+def _by_element(sp):
+    d = {}
+    for (i, var), n in cas.var_sizes(sp).items():
+        ok = True
+        if i.startswith("O"):
+            k = next(o for o in sp["origins"] if o["id"] == i)["kind"]
+            ok = var in {"main": ("w", "d", "v_ctrl"), "ramp_in": ("w", "d", "r"), "ramp_out": ("w", "d", "r"), "simp_lim": ("w", "d", "q"), "simp_unl": ("w", "d", "q")}.get(k, ())
+        if i.startswith("D"):
+            ok = next(x for x in sp["dests"] if x["id"] == i)["kind"] == "cong"
+        if ok:
+            d.setdefault(i, []).append(var)
+    return d
 
 
 def strategy(tier):
@@ -79,12 +108,14 @@ def check_case(case, ctx):
         level = min(max(compact, 0), 2)  # documented: <=0 no aggregation, 1 per variable, >1 x/u/d
         extra = compact not in (0, 1, 2)
         overrides, par_over, parameters, values = c03.make_symbolic(sp, sym, case.get("sympars"))
-        r = guarded(ctx, "compile", cas.compile_net, sp, sym, compact, more_out, case["opts"], overrides, par_over, parameters or None)
+        params = [(k, 1) for k in parameters]
+        if case.get("init"):
+            ctx.label("caller-symbols")
+        r = guarded(ctx, "compile", cas.compile_net, sp, sym, compact, more_out, case["opts"], overrides, par_over, parameters or None, None, case.get("init"))
         if crashed(r):
             return
         F, net, els = r
         lay = layout.Layout(sp, layout.element_order(net, els))
-        params = [(k, 1) for k in parameters]
         exp_in, exp_out = lay.inputs(level, params), lay.outputs(level, more_out)
         # (i) names, sizes, order
         if [n for n, _ in exp_in] != F.name_in():
